@@ -110,7 +110,13 @@ class Ocp(Stage):
             self._original._set_transcribed(True)
             self._var_is_transcribed = True
 
-            self._transcribe_recurse(phase=2,placeholders=self.placeholders_transcribed,**kwargs)
+            try:
+                self._transcribe_recurse(phase=2,placeholders=self.placeholders_transcribed,**kwargs)
+            except:
+                # a transcription that did not complete is no transcription
+                self._original._set_transcribed(False)
+                self._var_is_transcribed = False
+                raise
     
     def _untranscribe(self,**kwargs):
         if self.is_transcribed:
